@@ -12,9 +12,14 @@ axiom("desc_up", {"x": "Scope", "r": "Scope", "k": "Int"},
 axiom("desc_down", {"y": "Scope", "r": "Scope", "k": "Int"},
       "implies(desc(y, r) and 0 <= k and k < len(children(y)), desc(children(y)[k], r))", patterns=[["desc(y, r)", "children(y)[k]"]],
       note="a property of reachability (a child of a reachable scope is reachable); with desc_refl and desc_up: desc(x, r) = x is reachable from r by child steps")
+axiom("desc_tree", {"p": "Scope", "k": "Int", "y": "Scope"},
+      "implies(0 <= k and k < len(children(p)) and desc(children(p)[k], y) and y != children(p)[k], desc(p, y))", patterns=[["children(p)[k]", "desc(children(p)[k], y)"]],
+      note="ASSUMPTION made explicit: scopes form a tree (whatever contains a nested scope, other than itself, contains its parent)")
 specfun("height", ["Scope"], "Int", note="nesting height of a scope's subtree")
 axiom("height_child", {"y": "Scope", "k": "Int"}, "implies(0 <= k and k < len(children(y)), 0 <= height(children(y)[k]) and height(children(y)[k]) < height(y))",
       patterns=["children(y)[k]"], note="ASSUMPTION made explicit: scopes nest finitely (a nested scope's subtree is strictly lower)")
+axiom("desc_height", {"x": "Scope", "r": "Scope"}, "implies(desc(x, r) and x != r, height(x) < height(r))", patterns=["desc(x, r)"],
+      note="what is strictly nested is strictly lower (consequence of height_child along the nesting path; stated, not derived)")
 contract("Scope.get_scopes", abstract=True, pure=True, heap_independent=True, params={"self": "Scope"}, returns="Seq[Scope]", ensures=["result == children(self)"])
 contract("Scope.in_region", abstract=True, pure=True, heap_independent=True, params={"self": "Scope", "offset": "Int"}, returns="Bool", ensures=["result == inreg(self, offset)"])
 contract("_HoldingScopeFinder.get_holding_scope_for_offset", source=S + "_HoldingScopeFinder.get_holding_scope_for_offset",
@@ -51,6 +56,8 @@ contract("_HoldingScopeFinder.get_holding_scope", source=S + "_HoldingScopeFinde
          returns="Scope", requires=["kind_of(module_scope) == 'Module'", "height(module_scope) >= 0"], modifies=[], raises={},
          ensures=[
              "desc(result, module_scope)",
+             # the descent stops at the FIRST scope on its way that starts on the line: no scope strictly around the answer does
+             "forall(lambda y: implies(desc(result, y) and desc(y, module_scope) and y != result, not (start_of(y) == lineno and kind_of(y) != 'Module')), 'Scope')",
              # below the module scope the answer spans the line and is not indented deeper than it
              "result == module_scope or (holds(result, lineno) and eligible(self, result, " + IND + "))",
              # it is as deep as the rule allows: it starts on the line itself, or no directly nested scope that could continue the descent spans the line
@@ -60,6 +67,8 @@ contract("_HoldingScopeFinder.get_holding_scope", source=S + "_HoldingScopeFinde
              "       not eligible(self, children(result)[k], " + IND + ")))"],
          loops={1: {"decreases": "ite(is_none(new_scope), 0, 1 + height(val(new_scope)))",
                     "inv": ["desc(current_scope, module_scope)", "is_none(new_scope) or height(val(new_scope)) >= 0",
+                            "forall(lambda y: implies(desc(current_scope, y) and desc(y, module_scope) and y != current_scope, not (start_of(y) == lineno and kind_of(y) != 'Module')), 'Scope')",
+                            "implies(not is_none(new_scope) and val(new_scope) != current_scope, not (start_of(current_scope) == lineno and kind_of(current_scope) != 'Module'))",
                             "current_scope == module_scope or (holds(current_scope, lineno) and eligible(self, current_scope, line_indents))",
                             "is_none(new_scope) or desc(val(new_scope), module_scope)",
                             "is_none(new_scope) or val(new_scope) == module_scope or holds(val(new_scope), lineno)",
